@@ -6,7 +6,7 @@ PROPERTY = "C01"
 CLAUSES = ["C01.mono", "C01.due", "C01.order", "C01.neg", "C01.noraise"]
 RULE = ("every process program of <= D executed instructions over {return, timeout(0|1|2|0.5), wait/succeed a shared "
         "event, join, interrupt, spawn, raise, timeout(-1)} with 2 initial and <= 4 processes, run to exhaustion or through "
-        "run(until=t) calls (single and chained, also from a negative initial time to exactly 0), plus a variant with delays 2^-40, 1-2^-40 and inf; non-trivial = two occurrences were pending for the same instant when one of them took effect; "
+        "run(until=t) calls (single and chained, also from a negative initial time to exactly 0), plus a variant with delays 2^-40, 1-2^-40 and inf; plus one fixed long run with more than 2^20 scheduled occurrences; non-trivial = two occurrences were pending for the same instant when one of them took effect; "
         "distinct = distinct observation logs")
 ASSUMPTIONS = [
     "occurrences are observed black-box: probe callbacks on every event the harness creates, first statement of a body "
@@ -27,11 +27,64 @@ def plan(tier, seed):
             # delays far below any rounding threshold next to whole instants
             dict(depth=d - 1, stop=None, tiny=1),
             # an integer clock far above 2**53 (nanosecond timestamps): instants must stay exact integers
-            dict(depth=d - 2, stop=[2 ** 60 + 1, 2 ** 60 + 2], init=2 ** 60, ints=1)]
+            dict(depth=d - 2, stop=[2 ** 60 + 1, 2 ** 60 + 2], init=2 ** 60, ints=1),
+            # one long deterministic run: more than 2^20 occurrences scheduled before an urgent and an old ordinary one coincide
+            dict(endurance=2 ** 20 + 16)]
     return {"cfgs": cfgs, "budget": None, "bound": "D<=%d (run to exhaustion), D<=%d with run(until=0.5|1|2) and chained run(until=1);run(until=2); <=4 processes" % (d, d - 1)}
 
 
+def endurance(cfg):
+    """a single fixed program (no choice points): after > 2^20 scheduled occurrences an interrupt triggered at instant N must
+    still be delivered before an ordinary timeout for N that was created at the very beginning; the clock must end at N"""
+    from onl.sim import Environment, Interrupt
+    res = Result()
+    n = cfg["endurance"]
+    env = Environment()
+    log = []
+
+    def interrupter(victim):
+        yield env.timeout(n)            # created first: resumes first at instant n
+        victim.interrupt("late")
+        log.append(("issued", env.now))
+
+    def old_waiter():
+        yield env.timeout(n)            # an ordinary occurrence for instant n, created at the very beginning
+        log.append(("old-timeout", env.now))
+
+    def victim():
+        try:
+            yield env.event()
+        except Interrupt as i:
+            log.append(("interrupt", env.now))
+
+    def looper():
+        for _ in range(n):
+            yield env.timeout(1)
+        log.append(("looper", env.now))
+    v = env.process(victim())
+    env.process(interrupter(v))
+    env.process(old_waiter())
+    env.process(looper())
+    try:
+        env.run()
+    except BaseException as e:  # noqa
+        res.bad("C01.noraise", "endurance-run-raised-%s" % type(e).__name__, repr(e)[:100])
+    res.digest = tuple(log)
+    res.nontrivial = True
+    res.ev("C01.order"); res.ev("C01.due")
+    want = [("issued", n), ("interrupt", n), ("old-timeout", n), ("looper", n)]
+    if log != want and not res.violations:
+        kinds = [x[0] for x in log]
+        if any(x[1] != n for x in log) or len(log) != 4:
+            res.bad("C01.due", "occurrence-off-its-instant-after-2^20-schedulings", "log %r" % (log,))
+        else:
+            res.bad("C01.order", "ordinary-occurrence-before-urgent-interrupt-after-2^20-schedulings", "order %r, expected %r" % (kinds, [x[0] for x in want]))
+    return res
+
+
 def execute(ch, cfg):
+    if cfg.get("endurance"):
+        return endurance(cfg)
     from onl.sim import Environment
     ops = [o for o in OPS if o != ("T", 0.5)] if cfg.get("ints") else OPS if not cfg.get("tiny") else [o for o in OPS if o not in (("T", 2), ("T", 0.5))] + [("T", 2.0 ** -40), ("T", 1 - 2.0 ** -40), ("T", float("inf"))]
     k = KC.K(ch, ops, cfg["depth"], stop_at=cfg["stop"], reaction=False, env=Environment(cfg.get("init", 0))).run()
